@@ -22,7 +22,7 @@ ASSUMPTIONS = ["bool is accepted where int/float is declared (bool is a subclass
                "keys passed to get/remove are relative to the root map (the root's own key is not part of the path)"]
 
 KINDS = ["int", "float", "str", "bool", "quantity", "sel", "unit", "map"]
-QCLS = ["Length", "Duration", "Speed", "Mass"]
+QCLS = ["Length", "Duration", "Speed", "Mass", "Energy", "Torque"]       # Energy and Torque share one SI signature: still different types
 
 
 class InvariantBroken(Exception):
@@ -51,7 +51,8 @@ def _val(rng, kind_hint=None):
         return ["bool", rng.random() < 0.5]
     if k == "quantity":
         c = rng.choice(QCLS)
-        u = {"Length": ["m", "km", "mm"], "Duration": ["s", "min", "h"], "Speed": ["m/s", "km/h"], "Mass": ["kg", "g"]}[c]
+        u = {"Length": ["m", "km", "mm"], "Duration": ["s", "min", "h"], "Speed": ["m/s", "km/h"], "Mass": ["kg", "g"], "Energy": ["J", "mJ"],
+             "Torque": ["N.m", "lbf.ft"]}[c]
         return ["q", c, rng.choice([0.0, 1.0, -1.0, 5.0, 50.0, 500.0, 1e6, float("nan") if rng.random() < 0.1 else 2.5]), rng.choice(u)]
     if k == "nan":
         return ["nan"]
@@ -102,7 +103,7 @@ def gen_case(rng, tier, i):
             default = _val(rng, hint if kind != "map" else None)
             if kind == "quantity" and default[0] == "q" and rng.random() < 0.7:
                 default[1] = spec["cls"]
-                default[3] = {"Length": "m", "Duration": "s", "Speed": "m/s", "Mass": "kg"}[spec["cls"]]
+                default[3] = {"Length": "m", "Duration": "s", "Speed": "m/s", "Mass": "kg", "Energy": "J", "Torque": "N.m"}[spec["cls"]]
             ops.append({"op": "mk", "kind": kind, "key": key, "parent": parent, "prio": rng.choice([1, 1, 2, 2.5, 3, 0.5, 1.0]),
                         "ro": rng.random() < 0.2, "spec": spec, "default": default,
                         "how": rng.choice(["parent", "parent", "detached_add", "model_add"])})
